@@ -139,6 +139,18 @@ def _job(job) -> List[Dict[str, Any]]:
                 if s is not None and isinstance(s.elem, Ptr) and s.elem.loc == "IN.team":
                     teams_arg = (name, s)
         c = f"order of the teams handed to {ev.data['callee'].split('::')[-1]} ({case})"
+        if sel:
+            def _is_rank_list(v):
+                if not (isinstance(v, Ptr) and v.loc in st.heap):
+                    return False
+                rs_ = I.list_seq(st, v)
+                return rs_ is not None and isinstance(rs_.elem, Num) and "RANKRAW" in rs_.elem.prov
+
+            if not any(_is_rank_list(v) for v in bound.values()):
+                inst("R4.1", "VIOLATED", f"rank values reach {ev.data['callee'].split('::')[-1]} ({case})",
+                     f"with {sel} given, a call of the update kernel is reachable that receives no rank values: on that path the outcome (order and ties) is replaced by the "
+                     "order in which the teams are listed, so another presentation of the same game gives another result", {}, m, fn, ln)
+                continue
         if teams_arg is None:
             inst("R4.1", "UNDECIDED", c, "could not identify the list of teams among the kernel's arguments", {}, m, fn, ln)
             continue
